@@ -18,6 +18,7 @@ EXPLANATION = (
     "R01.7: cache table size/mask/index forms."
 )
 THOROUGH_CONFIGS = [C.NO_CHARWISE, C.NO_CACHE, C.NO_FIX, C.NO_TAG, C.MINIMAL, C.SIMD]
+QUICK_CONFIGS = [C.NO_CACHE]
 NOT_DECIDED = [
     "merged weight arithmetic (merge, add_assign) and the add_score inner loops (fixed/variable/negative positions)",
     "content of the 8^(2W) cache table and of str_to_char_pos", "daachorse match semantics",
